@@ -178,7 +178,7 @@ def in_process_part(chk, exprs):
     if chk.tier == "quick":
         rng.shuffle(combos)
         must = [c for c in combos if c[0] in ("all-granted", "shield-only") and c[3] in ("interrupt", "exception", "config-error")]
-        combos = must + [c for c in combos if c not in must][:26]
+        combos = must + [c for c in combos if c not in must]
     extra = [("no-sudo", None, 0, "success"), ("no-sudo", None, 0, "interrupt"), ("-D", REPORTS[0][1], 0, "success"),
              ("-D", REPORTS[0][1], 0, "interrupt"), ("-D", REPORTS[2][1], 0, "failed-benchmarks")]
     ncores = dc.get_number_of_cores()
